@@ -164,7 +164,8 @@ type hseg struct {
 	closed bool
 	uni    *universe
 	ndocs  int
-	zero   bool // opened from a merge without survivors (known finding: not merged again)
+	lin    map[int]bool // builds this segment descends from
+	zero   bool         // opened from a merge without survivors (known finding: not merged again)
 }
 
 // universe = what the inputs of a segment mention (drives the probes).
@@ -369,6 +370,7 @@ type Life struct {
 	files   map[int]*universe
 	fileN   map[int]int
 	fileZ   map[int]bool
+	fileL   map[int]map[int]bool
 	plugin  *zap.ZapPlugin
 	light   bool
 	parkGC  bool // build-history mode: garbage collector parked, residues logged
@@ -376,7 +378,7 @@ type Life struct {
 }
 
 func NewLife(tr *Tracer, r *rand.Rand, dir string) *Life {
-	return &Life{tr: tr, r: r, dir: dir, segs: map[int]*hseg{}, files: map[int]*universe{}, fileN: map[int]int{}, fileZ: map[int]bool{},
+	return &Life{tr: tr, r: r, dir: dir, segs: map[int]*hseg{}, files: map[int]*universe{}, fileN: map[int]int{}, fileZ: map[int]bool{}, fileL: map[int]map[int]bool{},
 		plugin: &zap.ZapPlugin{}, maxTLC: 1500}
 }
 
@@ -393,6 +395,7 @@ func (l *Life) Reset(lcm int, tag string) {
 	l.files = map[int]*universe{}
 	l.fileN = map[int]int{}
 	l.fileZ = map[int]bool{}
+	l.fileL = map[int]map[int]bool{}
 	l.nextSid, l.nextFil = 0, 0
 	zap.LegacyChunkMode = uint32(lcm)
 	l.tr.Emit(EvReset{Ev: "reset", LCM: lcm, Tag: tag})
@@ -444,7 +447,7 @@ func (l *Life) Build(batch []Doc, mode int) *hseg {
 		return nil
 	}
 	u := universeOf(batch)
-	h := &hseg{sid: l.nextSid, seg: seg, mem: true, uni: u, ndocs: len(batch)}
+	h := &hseg{sid: l.nextSid, seg: seg, mem: true, uni: u, ndocs: len(batch), lin: map[int]bool{l.nextSid: true}}
 	l.nextSid++
 	l.segs[h.sid] = h
 	opBegin("queries on built segment")
@@ -504,6 +507,7 @@ func (l *Life) Persist(h *hseg) int {
 	if err == nil {
 		l.files[k] = h.uni
 		l.fileN[k] = h.ndocs
+		l.fileL[k] = h.lin
 	}
 	return k
 }
@@ -520,7 +524,7 @@ func (l *Life) Open(k int) *hseg {
 		l.tr.Emit(ev)
 		return nil
 	}
-	h := &hseg{sid: l.nextSid, seg: seg, uni: l.files[k], ndocs: l.fileN[k], zero: l.fileZ[k]}
+	h := &hseg{sid: l.nextSid, seg: seg, uni: l.files[k], ndocs: l.fileN[k], zero: l.fileZ[k], lin: l.fileL[k]}
 	l.nextSid++
 	l.segs[h.sid] = h
 	ev.Sid = h.sid
@@ -603,6 +607,13 @@ func (l *Life) Merge(ins []*hseg, drops []Drop, mode int) (int, bool) {
 		}
 		l.fileN[k] = n
 		l.fileZ[k] = n == 0 && len(u.fields) > 0
+		lin := map[int]bool{}
+		for _, h := range ins {
+			for b := range h.lin {
+				lin[b] = true
+			}
+		}
+		l.fileL[k] = lin
 	}
 	return k, ok
 }
@@ -792,7 +803,24 @@ func (l *Life) RandomScenario(p *GenProfile, steps int, tag string) {
 			perm := l.r.Perm(len(live))[:n]
 			ins := []*hseg{}
 			drops := []Drop{}
+			used := map[int]bool{}
 			for _, i := range perm {
+				// input domain: segments with vectors are not merged with their own copies (vector ids
+				// must be unique across the inputs of a merge)
+				overlap := false
+				if p.Vec {
+					for b := range live[i].lin {
+						if used[b] {
+							overlap = true
+						}
+					}
+				}
+				if overlap {
+					continue
+				}
+				for b := range live[i].lin {
+					used[b] = true
+				}
 				ins = append(ins, live[i])
 				drops = append(drops, randDrop(l.r, live[i].ndocs))
 			}
